@@ -51,6 +51,8 @@ enum Which {
 #[derive(Serialize, Deserialize, Clone, Debug)]
 enum Sc {
     One { vals: Vec<i32>, which: Which, rng: RngSpec },
+    /// EcIndividual<genome, Score> populations (genomes may repeat)
+    Scored { inds: Vec<(u8, i64)>, which: Which, rng: RngSpec },
     /// N seeded tournaments of size k over n distinct values
     Dist { n: usize, k: usize, trials: u64, seed: u64, cells_total: u64 },
 }
@@ -161,6 +163,51 @@ fn exec_one(vals: &[i32], which: Which, spec: &RngSpec, obs: &mut Obs) -> Vec<Vi
         fp = mix(fp, match which { Which::Tournament(k) => k as u64, _ => 0 });
         fp = mix(fp, u64::from(w));
         obs.nontrivial(fp);
+    }
+    v
+}
+
+fn exec_scored(inds: &[(u8, i64)], which: Which, spec: &RngSpec, obs: &mut Obs) -> Vec<Violation> {
+    use ec_core::{individual::ec::EcIndividual, test_results::Score};
+    let pop: Vec<EcIndividual<u8, Score<i64>>> = inds.iter().map(|(g, s)| EcIndividual::new(*g, Score(*s))).collect();
+    let mut rng = spec.build();
+    let r = catch(|| match which {
+        Which::Best => Best.select(&pop, &mut rng).ok().map(|x| x.test_results.0),
+        Which::Worst => Worst.select(&pop, &mut rng).ok().map(|x| x.test_results.0),
+        Which::Tournament(k) => tournament(k).select(&pop, &mut rng).ok().map(|x| x.test_results.0),
+    });
+    obs.count("draws", rng.draws());
+    let mut v = Vec::new();
+    let Ok(Some(w)) = r else { return v };
+    let best = inds.iter().map(|(_, s)| *s).max().unwrap_or(0);
+    let worst = inds.iter().map(|(_, s)| *s).min().unwrap_or(0);
+    let genomes_repeat = (0..inds.len()).any(|i| (0..i).any(|j| inds[i].0 == inds[j].0 && inds[i].1 != inds[j].1));
+    if genomes_repeat {
+        obs.hit("probe.same-genome-different-scores");
+    }
+    match which {
+        Which::Worst => {
+            if w != worst {
+                v.push(Violation::new(
+                    "worst-returns-a-minimal-individual",
+                    "worst-not-minimal:scored-individuals".to_string(),
+                    format!("Worst on (genome, score) individuals {inds:?} returned score {w}; the minimal score is {worst}"),
+                ));
+            }
+        }
+        // Best, and a tournament over the whole population
+        _ => {
+            if w != best {
+                v.push(Violation::new(
+                    "best-returns-a-maximal-individual",
+                    "best-not-maximal:scored-individuals".to_string(),
+                    format!("{which:?} on (genome, score) individuals {inds:?} returned score {w}; the maximal score is {best}"),
+                ));
+            }
+        }
+    }
+    if inds.len() >= 2 {
+        obs.nontrivial(fnv1a(format!("{inds:?}{which:?}").as_bytes()));
     }
     v
 }
@@ -296,7 +343,21 @@ impl Check for C07 {
                 cells_total: cells_total(max_n),
             };
         }
-        let n = g.urange(1, 8);
+        if g.chance(1, 6) {
+            // scored individuals with shared genomes: the selection pressure is
+            // defined by the test results
+            let n = g.urange(1, 8);
+            return Sc::Scored {
+                inds: (0..n).map(|_| (g.below(3) as u8, g.range(0, 9) as i64)).collect(),
+                which: match g.below(3) {
+                    0 => Which::Best,
+                    1 => Which::Worst,
+                    _ => Which::Tournament(n),
+                },
+                rng: RngSpec::swarm(g),
+            };
+        }
+        let n = if g.chance(1, 4) { g.urange(9, 14) } else { g.urange(1, 8) };
         let spread = g.range(1, 4) as i32;
         let vals: Vec<i32> = (0..n).map(|_| g.range(0, spread as u64) as i32).collect();
         let which = match g.below(4) {
@@ -314,6 +375,7 @@ impl Check for C07 {
     fn execute(&self, sc: &Sc, obs: &mut Obs) -> Vec<Violation> {
         match sc {
             Sc::One { vals, which, rng } => exec_one(vals, *which, rng, obs),
+            Sc::Scored { inds, which, rng } => exec_scored(inds, *which, rng, obs),
             Sc::Dist { n, k, trials, seed, cells_total } => exec_dist(*n, *k, *trials, *seed, *cells_total, obs),
         }
     }
